@@ -608,3 +608,125 @@ def as_int(x) -> Optional[int]:
     if isinstance(x, (int, np.integer)) and not isinstance(x, bool):
         return int(x)
     return None
+
+
+# --------------------------------------------------------------------------
+# round 4, class 11: the same valid argument in another presentation
+# --------------------------------------------------------------------------
+
+INT_FORMS = ["list", "tuple", "int64", "int32", "int16", "uint8", "uint16", "uint64", "npscalars", "row"]
+
+
+def int_seq_form(v, form: str):
+    """a list of small non-negative ints as list / tuple / integer array of the named dtype / list of numpy integer scalars /
+    1 x n row array (parse_one_d documents that extra dimensions are dropped) / bare (numpy) int for a single entry"""
+    if v is None:
+        return None
+    v = [int(x) for x in v]
+    if form == "list":
+        return list(v)
+    if form == "tuple":
+        return tuple(v)
+    if form == "npscalars":
+        return [np.int64(x) if i % 2 else np.int32(x) for i, x in enumerate(v)]
+    if form == "row":
+        return np.array([v], dtype=np.int64)
+    if form.startswith("bare"):
+        if len(v) != 1:
+            return list(v)
+        return {"bare-int": int, "bare-int32": np.int32, "bare-uint8": np.uint8}[form](v[0])
+    return np.array(v, dtype=np.dtype(form))
+
+
+def _ro(a: np.ndarray) -> np.ndarray:
+    a = np.array(a, copy=True, order="F")
+    a.setflags(write=False)
+    return a
+
+
+def _strided(a: np.ndarray) -> np.ndarray:
+    """a non-contiguous view holding the values of a (every second row and column of a larger buffer)"""
+    a = np.asarray(a)
+    big = np.zeros(tuple(2 * n + 1 for n in a.shape), dtype=a.dtype)
+    sl = tuple(slice(1, 2 * n + 1, 2) for n in a.shape)
+    big[sl] = a
+    return big[sl]
+
+
+def represent_factors(G: ttb.ktensor, how: str) -> ttb.ktensor:
+    """the same Kruskal tensor built by the public constructor from another presentation of the same matrices"""
+    fms = [np.asarray(f) for f in G.factor_matrices]
+    w = np.asarray(G.weights)
+    if how == "c-ordered":
+        return ttb.ktensor([np.ascontiguousarray(f) for f in fms], np.array(w, copy=True))
+    if how == "strided":
+        return ttb.ktensor([_strided(f) for f in fms], _strided(w))
+    if how == "readonly":
+        return ttb.ktensor([_ro(f) for f in fms], _ro(w))
+    if how == "readonly-nocopy":
+        return ttb.ktensor([_ro(f) for f in fms], _ro(w), copy=False)
+    if how == "tuple":
+        return ttb.ktensor(tuple(np.array(f, copy=True, order="F") for f in fms), np.array(w, copy=True))
+    if how == "copy-method":
+        return G.copy()
+    raise ValueError(how)
+
+
+def represent_data(x, how: str):
+    """the same data tensor built by the public constructors from another presentation of the same arrays:
+    readonly / readonly-nocopy: every array read-only (and handed over by reference); strided / c-ordered: non-contiguous or
+    C-ordered sources; subs-<dtype>: sparse subscripts held in that integer dtype; shape-<dtype>: shape entries numpy integers of
+    that dtype (given as a tuple) ; shape-list: shape as a list."""
+    copy = how != "readonly-nocopy"
+    arr = {"readonly": _ro, "readonly-nocopy": _ro, "strided": _strided, "c-ordered": lambda a: np.ascontiguousarray(np.asarray(a))}.get(
+        how, lambda a: np.array(a, copy=True, order="F"))
+    if isinstance(x, ttb.tensor):
+        shape: Any = tuple(int(n) for n in x.shape)
+        if how.startswith("shape-"):
+            shape = list(shape) if how == "shape-list" else tuple(np.dtype(how[6:]).type(n) for n in shape)
+        return ttb.tensor(arr(np.asarray(x.data)), shape, copy=copy)
+    if isinstance(x, ttb.sptensor):
+        shape = tuple(int(n) for n in x.shape)
+        if np.asarray(x.subs).size == 0:
+            return ttb.sptensor(shape=shape)
+        subs = np.asarray(x.subs)
+        if how.startswith("subs-"):
+            subs = subs.astype(np.dtype(how[5:]))
+        if how.startswith("shape-"):
+            shape = list(shape) if how == "shape-list" else tuple(np.dtype(how[6:]).type(n) for n in shape)
+        if how in ("readonly", "readonly-nocopy"):
+            s2, v2 = np.array(subs, copy=True), np.array(x.vals, copy=True)
+            s2.setflags(write=False)
+            v2.setflags(write=False)
+            return ttb.sptensor(s2, v2, shape, copy=copy)
+        if how == "strided":
+            return ttb.sptensor(_strided(subs), _strided(np.asarray(x.vals)), shape)
+        return ttb.sptensor(np.array(subs, copy=True), np.array(x.vals, copy=True), shape)
+    if isinstance(x, ttb.ktensor):
+        if how in ("readonly", "readonly-nocopy", "strided", "c-ordered"):
+            return represent_factors(x, how)
+        return represent_factors(x, "copy-method")
+    if isinstance(x, ttb.ttensor):
+        return ttb.ttensor(represent_data(x.core, how), [arr(np.asarray(f)) for f in x.factor_matrices], copy=copy)
+    if isinstance(x, ttb.sumtensor):
+        return ttb.sumtensor([represent_data(p, how) for p in x.parts], copy=copy)
+    raise TypeError(type(x))
+
+
+@contextlib.contextmanager
+def root_logger_at(level):
+    """root logger at `level` with a NullHandler attached and logging enabled (the harness disables it), restored afterwards"""
+    import logging
+
+    root = logging.getLogger()
+    old_level, old_disable = root.level, root.manager.disable
+    h = logging.NullHandler()
+    root.addHandler(h)
+    try:
+        logging.disable(logging.NOTSET)
+        root.setLevel(level)
+        yield
+    finally:
+        root.setLevel(old_level)
+        root.removeHandler(h)
+        logging.disable(old_disable)
